@@ -1,1 +1,198 @@
-(* Proofs/GenC18Proofs.v - placeholder *)
+(** Proofs/GenC18Proofs.v — Tie B for C18: the definitions GENERATED from the current Python
+    source (Gen/GenC18.v, rewritten before every build by tools/py2coq_c18.py) are proved equal,
+    for all inputs, to the hand-written model functions the C18 theorems are about
+    (Model/Parsers.v, Model/Cli.v).  An edit to one of the parser modules or to the except
+    ladder / runner call of pypyr.cli.main re-checks — or breaks — these lemmas.
+
+    The proofs do not mention the generated terms literally (fresh-name suffixes and the order
+    of let-bindings may change with harmless edits of the source); they destruct the argument,
+    compute, and use extensionality of map / fold_left. *)
+From PV Require Import Parsers Cli ParsersProofs CliProofs GenC18.
+Open Scope string_scope.
+
+Lemma dict_update_single k v : dict_update [] [(k, v)] = [(k, v)].
+Proof. reflexivity. Qed.
+
+Lemma fold_left_ext {A B} (f g : A -> B -> A) l :
+  (forall s x, f s x = g s x) -> forall s, fold_left f l s = fold_left g l s.
+Proof. intros H. induction l as [|x r IH]; intros s; simpl; [reflexivity|]. now rewrite H, IH. Qed.
+
+(** pairs read off [partition('=')] are the model's [kv_pair]s *)
+Lemma kv_pair_partition s :
+  (let '(k, _, v) := partition_first "="%char s in (VStr k, VStr v)) = kv_pair s.
+Proof. unfold kv_pair, kv_of, eq_char. destruct (partition_first "=" s) as [[k f] v]. reflexivity. Qed.
+
+(** normalise a generated pipeline of maps over the arguments into the model's [map kv_pair] *)
+Ltac kvp_maps :=
+  rewrite ?map_map;
+  match goal with
+  | |- context [map ?f ?l] =>
+      let T := type of f in
+      unify T (string -> (val * val)%type);
+      replace (map f l) with (map kv_pair l)
+        by (apply map_ext; intros s_; symmetry; apply kv_pair_partition)
+  end.
+
+(** the same pairs written by an explicit loop [for element in args: out[k] = v] *)
+Ltac kvp_loop :=
+  match goal with
+  | |- context [fold_left ?f ?l ?i] =>
+      let T := type of f in
+      unify T (dict -> string -> dict);
+      let H := fresh "H" in
+      assert (H : forall l0 d, fold_left f l0 d = dict_update d (map kv_pair l0));
+      [ let l0 := fresh "l0" in let a0 := fresh "a0" in let IH := fresh "IH" in
+        induction l0 as [|a0 l0 IH]; intros d; [reflexivity|];
+        cbn [fold_left map]; rewrite IH; unfold dict_update at 2; cbn [fold_left];
+        unfold kv_pair, kv_of, eq_char;
+        destruct (partition_first "=" a0) as [[k_ f_] v_]; reflexivity
+      | rewrite H ]
+  end.
+
+Ltac kvp_norm := cbv zeta; first [kvp_maps | kvp_loop].
+
+(** * the parsers *)
+Lemma gen_keyvaluepairs_is_model a : gen_parse_keyvaluepairs a = parse_keyvaluepairs a.
+Proof.
+  destruct a as [[|x l]|]; try reflexivity.
+  unfold gen_parse_keyvaluepairs, parse_keyvaluepairs. cbn [args_falsy args_list].
+  unfold kvp_dict, dict_of_pairs. kvp_norm. reflexivity.
+Qed.
+
+Lemma gen_dict_is_model a : gen_parse_dict a = parse_dict a.
+Proof.
+  destruct a as [[|x l]|]; try reflexivity.
+  unfold gen_parse_dict, parse_dict. cbn [args_falsy args_list].
+  rewrite ?dict_update_single. unfold kvp_dict, dict_of_pairs. kvp_norm. reflexivity.
+Qed.
+
+Lemma gen_keys_is_model a : gen_parse_keys a = parse_keys a.
+Proof.
+  destruct a as [[|x l]|]; try reflexivity.
+  unfold gen_parse_keys, parse_keys. cbn [args_falsy args_list].
+  unfold keys_dict, dict_of_pairs. rewrite ?map_map. reflexivity.
+Qed.
+
+Lemma gen_list_is_model a : gen_parse_list a = parse_list a.
+Proof. destruct a as [[|x l]|]; reflexivity. Qed.
+
+Lemma gen_string_is_model a : gen_parse_string a = parse_string a.
+Proof. destruct a as [[|x l]|]; reflexivity. Qed.
+
+(** argskwargs: the generated loop carries (arg_list, out); the model's [akw_step] carries
+    (out, arg_list).  Whatever the generated loop body looks like, it is shown to simulate
+    [akw_step] under that swap, by induction on the argument list. *)
+Ltac akw_loop x l :=
+  match goal with
+  | |- context [fold_left ?f (x :: l) ?i] =>
+      let T := type of i in
+      unify T (list string * dict)%type;
+      (   let H := fresh "H" in
+          assert (H : forall l0 al out,
+                     fold_left f l0 (al, out)
+                     = (snd (fold_left akw_step l0 (out, al)), fst (fold_left akw_step l0 (out, al))));
+          [ let l0 := fresh "l0" in let a0 := fresh "a0" in let IH := fresh "IH" in
+            induction l0 as [|a0 l0 IH]; intros al out; [reflexivity|];
+            cbn [fold_left]; unfold akw_step at 2 4; unfold eq_char;
+            destruct (partition_first "=" a0) as [[k_ f_] v_]; destruct f_; cbn [negb andb orb fst snd];
+            rewrite IH; reflexivity
+          | rewrite H ])
+  end.
+
+Lemma gen_argskwargs_is_model a : gen_parse_argskwargs a = parse_argskwargs a.
+Proof.
+  destruct a as [[|x l]|]; try reflexivity.
+  unfold gen_parse_argskwargs, parse_argskwargs, argskwargs_dict, akw_finish.
+  cbn [args_falsy args_list]. cbv zeta.
+  akw_loop x l. reflexivity.
+Qed.
+
+(** json: [json.loads] is the translator's abstract primitive; instantiated with the model's
+    loader the generated parser is the model's *)
+Lemma gen_json_is_model a : gen_parse_json json_loads a = parse_json a.
+Proof.
+  destruct a as [[|x l]|]; try reflexivity.
+  all: unfold gen_parse_json, parse_json; cbn [args_falsy args_list].
+  all: destruct (json_loads (join " " (x :: l))) as [v| |]; cbn [bind]; [destruct v|..]; reflexivity.
+Qed.
+
+(** … and for ANY loader: None for no arguments, the loader's dict, TypeError for a non-dict,
+    the loader's error otherwise *)
+Lemma gen_json_any_loader loads a :
+  gen_parse_json loads a =
+  if args_falsy a then Ok None
+  else match loads (join " " (args_list a)) with
+       | Ok (VDict d) => Ok (Some d)
+       | Ok _ => Err "TypeError" json_type_error_msg
+       | Err n m => Err n m
+       | Unsup => Unsup
+       end.
+Proof.
+  destruct a as [[|x l]|]; try reflexivity.
+  all: unfold gen_parse_json; cbn [args_falsy args_list].
+  all: destruct (loads (join " " (x :: l))) as [v| |]; cbn [bind]; [destruct v|..]; reflexivity.
+Qed.
+
+(** * main: the except ladder *)
+
+(** what the try body raised, if anything *)
+Definition end_raised (e : run_end) : option run_end :=
+  match e with
+  | Completed | Stopped => None
+  | _ => Some e
+  end.
+
+(** Python [isinstance(e, <class named cls>)] on the model's ways of ending: the class lattice
+    BaseException > {Exception, KeyboardInterrupt, SystemExit, GeneratorExit, …} *)
+Definition raised_isinstance (e : run_end) (cls : string) : bool :=
+  match e with
+  | RaisedException _ _ => str_in cls ["Exception"; "BaseException"]
+  | RaisedKeyboardInterrupt => str_in cls ["KeyboardInterrupt"; "BaseException"]
+  | RaisedSystemExit _ => str_in cls ["SystemExit"; "BaseException"]
+  | RaisedOtherBase ty _ => String.eqb cls ty || String.eqb cls "BaseException"
+  | Completed | Stopped => false
+  end.
+
+(** main's result without what it prints: inl code = returned code, inr e = e escaped *)
+Definition ladder_of (m : main_out) : option Z + run_end :=
+  match m with
+  | Returned c _ _ _ => inl c
+  | Propagated e => inr e
+  end.
+
+(** [RaisedOtherBase ty] stands for a BaseException that is none of the classes which have a
+    constructor of their own *)
+Definition wf_end (e : run_end) : bool :=
+  match e with
+  | RaisedOtherBase ty _ =>
+      negb (String.eqb "KeyboardInterrupt" ty || String.eqb "Exception" ty
+            || String.eqb "SystemExit" ty)
+  | _ => true
+  end.
+
+Lemma gen_main_ladder_is_model log e :
+  wf_end e = true ->
+  gen_main_ladder run_end raised_isinstance (end_raised e) = ladder_of (main_of_end log e).
+Proof.
+  intros W. destruct e as [| |ty msg| |c|ty msg]; try reflexivity.
+  unfold gen_main_ladder, end_raised, raised_isinstance. simpl main_of_end. simpl ladder_of.
+  unfold wf_end in W. apply negb_true_iff in W. apply orb_false_iff in W as [W W3].
+  apply orb_false_iff in W as [W1 W2]. rewrite W1, W2. reflexivity.
+Qed.
+
+(** the exit status of the process, read off the generated ladder *)
+Lemma gen_main_ladder_status log e :
+  wf_end e = true ->
+  match gen_main_ladder run_end raised_isinstance (end_raised e) with
+  | inl None => process_status (main_of_end log e) = 0%Z
+  | inl (Some c) => process_status (main_of_end log e) = (c mod 256)%Z
+  | inr e' => main_of_end log e = Propagated e'
+  end.
+Proof.
+  intros W. rewrite (gen_main_ladder_is_model log e W).
+  destruct e; reflexivity.
+Qed.
+
+(** * main: the call into the runner *)
+Lemma gen_call_of_is_model cwd a : gen_call_of cwd a = call_of cwd a.
+Proof. reflexivity. Qed.
